@@ -67,8 +67,8 @@ SCENARIOS = {
         "thorough": [hist("c03", 400, "thorough", extra=T1), hist("c03", 80, "thorough")],
     },
     "C07": {
-        "modules": ["C07", "C07Nns", "C07History"],
-        "theorems": ["C07_history_projection_nobuild", "C07_history_projection_partial", "C07_history_answers_nobuild", "C07_history_append_partial", "C07_local_step", "C07_frame_step", "C07_answers_nns", "C07_answers_build_nns", "C07_answers_nns_reachable", "C07_fuel_mono", "C07_prefix_index", "C07_prefix_kind", "C07_range", "C07_frame_add", "C07_frame_append", "C07_frame_del",
+        "modules": ["C07", "C07Nns", "C07History", "C07BuildLocal"],
+        "theorems": ["C07_history_projection", "C07_buildLocal", "C07_readlocal_build_full", "C07_history_projection_nobuild", "C07_history_projection_partial", "C07_history_answers_nobuild", "C07_history_append_partial", "C07_local_step", "C07_frame_step", "C07_answers_nns", "C07_answers_build_nns", "C07_answers_nns_reachable", "C07_fuel_mono", "C07_prefix_index", "C07_prefix_kind", "C07_range", "C07_frame_add", "C07_frame_append", "C07_frame_del",
                      "C07_frame_clear", "C07_frame_prepare", "C07_frame_build", "C07_answers", "C07_dump_build"],
         "quick": [hist("c07", 120, extra=T1), hist("c07", 20), hist("c18", 30, extra=T1)],
         "thorough": [hist("c07", 480, "thorough", extra=T1), hist("c07", 120, "thorough")],
